@@ -1,7 +1,6 @@
 package stackless
 
 import (
-	"errors"
 	"fmt"
 	"io"
 	"sync"
@@ -91,7 +90,9 @@ func (w *writer) Reset(dstW io.Writer) {
 func (w *writer) do(op op) error {
 	w.op = op
 	if !stacklessWriterFunc(w) {
-		return errHighLoad
+		// The stackless worker queue is full: run the operation on the caller's
+		// goroutine instead of failing (or, for Reset/Close, silently skipping) it.
+		writerFunc(w)
 	}
 	err := w.err
 	if err != nil {
@@ -104,8 +105,6 @@ func (w *writer) do(op op) error {
 
 	return err
 }
-
-var errHighLoad = errors.New("cannot compress data due to high load")
 
 var (
 	stacklessWriterFuncOnce sync.Once
